@@ -504,6 +504,9 @@ class TimeBase(np.ndarray):
 
     def __getitem__(self, item):
         """Update _jd*_sliced with correct shape, used by __array_finalize__"""
+        if isinstance(item, (np.integer, np.ndarray)) and np.ndim(item) == 0 and np.asarray(item).dtype.kind in "iu":
+            # NumPy integer scalars and 0-dimensional integer arrays select a single entry, like a Python int
+            item = int(item)
         if not isinstance(item, tuple):
             # super.__getitem__ and other super methods (like __repr__) will send in a tuple to 
             # recursively access all individual elements.
